@@ -1,0 +1,28 @@
+//! Simulation seam for the system RNG (verification builds only).
+//!
+//! Look-alikes of `aws_lc_rs::rand::{SecureRandom, SystemRandom}` that ask the
+//! simulator first and fall back to the real source when it is not simulating.
+
+use aws_lc_rs::error::Unspecified;
+
+pub struct SystemRandom;
+
+impl SystemRandom {
+    pub fn new() -> Self {
+        SystemRandom
+    }
+}
+
+pub trait SecureRandom {
+    fn fill(&self, dest: &mut [u8]) -> Result<(), Unspecified>;
+}
+
+impl SecureRandom for SystemRandom {
+    fn fill(&self, dest: &mut [u8]) -> Result<(), Unspecified> {
+        match paseto_core::verif::fill(dest) {
+            Some(Ok(())) => Ok(()),
+            Some(Err(())) => Err(Unspecified),
+            None => aws_lc_rs::rand::SecureRandom::fill(&aws_lc_rs::rand::SystemRandom::new(), dest),
+        }
+    }
+}
